@@ -213,6 +213,9 @@ class Recorder:
         excs = [e for e in self.net.log if e['ev'] == 'exc']
         for x in excs:
             self.events.append({'ev': 'exc', 't': x['t'], 'what': x.get('cls'), 'msg': x.get('msg')})
+        if self.net.aborted:
+            self.events = self.events[:400] + [{'ev': 'exc', 't': self.events[min(len(self.events), 400) - 1]['t'] if self.events else 0,
+                                                'what': 'Runaway', 'msg': self.net.aborted[:200]}]
         return {'id': self.sc['id'], 'voc': self.voc.json(), 'events': self.events}
 
 
